@@ -482,7 +482,7 @@ def _mean_c(s):
 
 
 # resize ----------------------------------------------------------------------------------------------
-@pred("The width and height of the IFM and OFM must match one of the following criteria: IFM W and H must both be 1 IFM must match OFM W and H scaling must be equal and OFM W-1 and H-1 must be 2x/4x/8x IFM W-1 and H-1, if align_corners is True W and H scaling must be equal and OFM W and H must be 2x/4x/8x IFM W and H, if align_corners is False")
+@pred("The width and height of the IFM and OFM must match one of the following criteria: IFM W and H must both be 1 IFM must match OFM W and H scaling must be equal and OFM W-1 and H-1 must be 2x/4x/8x IFM W-1 and H-1 (IFM W and H both greater than 1), if align_corners is True W and H scaling must be equal and OFM W and H must be 2x/4x/8x IFM W and H, if align_corners is False")
 def _resize(s):
     if len(s.ifm["shape"]) != 4:
         return None
@@ -492,7 +492,7 @@ def _resize(s):
         return True
     if s.opts.get("AlignCorners"):
         if ih == 1 or iw == 1:
-            return None
+            return False
         fh, fw = (oh - 1) / (ih - 1), (ow - 1) / (iw - 1)
     else:
         fh, fw = oh / ih, ow / iw
